@@ -57,3 +57,20 @@ package bed
 //@     invariant bed != nil && len(bed.BlockSizes) == len(sizes)
 //@   loop 3
 //@     invariant bed != nil && len(bed.BlockStarts) == len(starts)
+
+// ---- writer ----
+
+//@ func BED.Write
+//@   props C04 C07
+//@   requires !w.failed
+//@   ensures (b.N < 3 || b.N > 12) ==> result != nil && same(w.out, old(w.out)) && !w.failed
+//@   ensures 3 <= b.N && b.N <= 12 ==> (result == nil <==> !w.failed)
+//@   loop 1
+//@     invariant b != nil && !w.failed && 3 <= b.N && b.N <= 12
+//@   loop 2
+//@     invariant b != nil && !w.failed && 3 <= b.N && b.N <= 12
+
+//@ func BED.MarshalText
+//@   props C04
+//@   ensures (b.N < 3 || b.N > 12) <==> result.1 != nil
+//@   ensures result.1 != nil ==> result.0 == nil
